@@ -7,10 +7,18 @@ PROP = Property(
         "verify_single_signature", "verus/C16/verify_single_signature.tmpl.rs",
         "extracted text of mithril-common MultiSigner::verify_single_signature: Ok ==> the signature verifies for this message under the (key, stake) registered at the slot the signature names, with the clerk's "
         "aggregate key and the configured parameters, AND the key at that slot is the key registered by the party the submission NAMES (party_id) - the obligation of C16 (finding F-C16-1, repaired)",
-        ["MultiSigner::verify_single_signature", "MultiSigner::compute_aggregate_verification_key"])],
-    replays=[dict(crate="mithril-common", file=MS, module="replays/c16_multi_signer.rs")],
+        ["MultiSigner::verify_single_signature", "MultiSigner::compute_aggregate_verification_key"]),
+        VerusUnit(
+        "aggregator_authenticator", "verus/C16/aggregator_authenticator.tmpl.rs",
+        "extracted text of the aggregator side: SingleSignatureAuthenticator::authenticate marks a submission Authenticated EXACTLY when the common verification succeeds for the current or, failing that, the next stake distribution, "
+        "Unauthenticated otherwise, and touches nothing else of the submission; MultiSignerImpl::verify_single_signature / ..for_next_stake_distribution Ok ==> the common verification accepted it with the epoch service's CURRENT / NEXT multi-signer",
+        ["aggregator SingleSignatureAuthenticator::authenticate", "aggregator MultiSignerImpl::{run_verify_single_signature, verify_single_signature, verify_single_signature_for_next_stake_distribution}"])],
+    replays=[dict(crate="mithril-common", file=MS, module="replays/c16_multi_signer.rs"),
+             dict(crate="mithril-aggregator", file="mithril-aggregator/src/tools/single_signature_authenticator.rs", module="replays/c16_authenticator.rs")],
     assumptions=[
-        "PARTIAL: only the common verification function that the aggregator's SingleSignatureAuthenticator relies on is under contract; the aggregator's certifier / buffered certifier / repository / HTTP and DMQ paths (async, SQLite) are not decided",
+        "PARTIAL: the common verification function, the aggregator's MultiSignerImpl wrappers and its SingleSignatureAuthenticator are under contract; the aggregator's buffered certifier / repository / HTTP and DMQ paths "
+        "(async, SQLite), de-duplication and MultiSignerImpl::create_multi_signature (anyhow downcasting) are not decided; storing only accepted signatures is C14's register_single_signature contract",
+        "authenticator unit: the aggregator's `Arc<dyn MultiSigner>` is a contract stub whose two methods carry the postconditions proved on MultiSignerImpl in the same unit; RwLock read guard -> reference; debug! / with_context removed",
         "mithril-stm SingleSignature::verify is a callee contract (C01); the registration lookup by slot is a contract of the clerk",
         "entities::SingleSignature is declared with the two fields the function reads (party_id, protocol signature); to_protocol_signature returns that signature",
         "the party-id -> key table (HashMap) is an opaque map with one lookup contract; `map.get(&id) != Some(&vk)` -> contract fn; anyhow!(..) -> error constructor",
